@@ -138,6 +138,8 @@ class PyEvaluator:
         self.ifcons.remove(c)
 
     def set_structure(self):
+        if len(self.vars) != len(self.cons) + len(self.ifcons):     # same refusal as Evaluator::set_structure in evaluator.cpp
+            raise ValueError('The number of constraints and variables must be equal.')
         self.structure_set = True
         for i, v in enumerate(self.vars):
             v.index = i
